@@ -37,7 +37,9 @@ RName(r) == "R" \o Str(r)
 \* ---- documented key mapping (ingest/osm.go osmTagMapping), restricted to the keys of the model
 MapKey(k) == CASE k = "highway" -> "#highway" [] k = "wikidata" -> "@wikidata" [] OTHER -> k
 \* OSM tags are a function from OSM keys to value or "-"; the result is a function over Keys (the mapped keys)
-OSMKeys == {"highway", "wikidata", "name", "type"}
+\* "point" and "path" are ordinary keys in OSM, but b6 keeps a feature's geometry under tags with exactly these keys:
+\* the geometry wins, the OSM tag of that key never shows (they are outside Keys, so MapTags drops them)
+OSMKeys == {"highway", "wikidata", "name", "type", "point", "path"}
 MapTags(t) == [k \in Keys |-> LET from == {o \in OSMKeys : MapKey(o) = k} IN
                               IF from = {} THEN None ELSE t[CHOOSE o \in from : TRUE]]
 
